@@ -971,3 +971,93 @@ def _c_svcb():
 
 
 HAND_CORNERS = {"hip": _c_hip, "ipseckey": _c_ipseckey, "amtrelay": _c_amtrelay, "apl": _c_apl, "gpos": _c_gpos, "loc": _c_loc, "opt": _c_opt, "svcb": _c_svcb}
+
+
+# ----------------------------------------------------------------------------- non-canonical octets
+# dec_corners(t) -> list of RDATA octet strings that are accepted (or nearly) but are NOT what
+# to_wire would emit: the places where a codec normalises.  Used for the "fixed point of
+# decode-then-encode" half of C02.
+
+
+def dec_corners(t):
+    n = t["name"]
+    if n == "OPT":
+        def opt(ot, data):
+            return ot.to_bytes(2, "big") + len(data).to_bytes(2, "big") + data
+        out = []
+        for k in (1, 2, 3):
+            out.append(opt(15, b"\x00\x12" + b"a" + b"\x00" * k))      # EDE text with trailing NULs
+            out.append(opt(15, b"\x00\x12" + b"\x00" * k))
+        out.append(opt(15, b"\x00\x12"))
+        out.append(opt(15, b"\x00\x12\xff"))                               # invalid UTF-8
+        out.append(opt(15, b"\x00\x12\xed\xa0\x80"))                       # surrogate
+        out.append(opt(15, b"\x00\x12\xc0\x80"))                           # overlong
+        out.append(opt(15, b"\x00\x12\xf4\x90\x80\x80"))                   # > U+10FFFF
+        out.append(opt(15, b"\x00\x12\xf0\x9f\x98\x80\x00"))
+        for fam, full in ((1, 4), (2, 16)):
+            for src in (1, 7, 9, 8 * full - 1):
+                out.append(opt(8, bytes([0, fam, src, 0]) + b"\xff" * ((src + 7) // 8)))   # host bits set
+            out.append(opt(8, bytes([0, fam, 8 * full + 1, 0]) + b"\xff" * (full + 1)))
+            out.append(opt(8, bytes([0, fam, 8, 8 * full + 1]) + b"\x01"))
+            out.append(opt(8, bytes([0, fam, 16, 0]) + b"\x01"))                           # short address
+            out.append(opt(8, bytes([0, fam, 8, 0]) + b"\x01\x02"))                        # long address
+        out.append(opt(8, b"\x00\x03\x08\x00\x01"))
+        out.append(opt(10, b"\x01" * 7)); out.append(opt(10, b"\x01" * 9)); out.append(opt(10, b"\x01" * 41))
+        out.append(opt(18, b"\xc0\x00"))                                   # pointer to the option header itself
+        out.append(opt(18, b"\x01a\x00\x00"))
+        out.append(opt(22, b"\xe4\xb8")); out.append(opt(23, b"ok\x00")); out.append(opt(25, b"\x80"))
+        out.append(opt(3, b"x") + opt(3, b"y"))
+        out.append(opt(65001, b"") + b"\x00")
+        return out
+    if n in ("SVCB", "HTTPS"):
+        def par(k, v):
+            return k.to_bytes(2, "big") + len(v).to_bytes(2, "big") + v
+        head = b"\x00\x01\x03svc\x00"
+        return [head + par(3, b"\x00\x50") + par(3, b"\x01\xbb"),           # duplicate key: last wins
+                head + par(1, b""), head + par(1, b"\x00"), head + par(1, b"\x02h2\x00"), head + par(1, b"\x03h2"),
+                head + par(2, b""), head + par(2, b"x"), head + par(1, b"\x02h2") + par(2, b""),
+                head + par(0, b"\x00\x01") + par(1, b"\x02h2"), head + par(0, b"\x00\x03"), head + par(0, b"\x00\x00") ,
+                head + par(0, b"\x00\x03\x00\x01") + par(1, b"\x02h2") + par(3, b"\x00\x50"), head + par(0, b"\x00"),
+                head + par(3, b"\x00"), head + par(3, b"\x00\x00\x00"), head + par(4, b"\x01\x02\x03"), head + par(4, b""),
+                head + par(6, b"\x00" * 15), head + par(5, b""), head + par(8, b""), head + par(8, b"\x00"),
+                head + par(7, b""), head + par(65280, b""), head + par(3, b"\x00\x50") + par(1, b"\x02h2"),
+                b"\x00\x00\x03svc\x00" + par(3, b"\x00\x50"), b"\x00\x00\x00", head + b"\x00\x03\x00\x09\x00\x50"]
+    if n == "APL":
+        def item(fam, prefix, n, addr):
+            return fam.to_bytes(2, "big") + bytes([prefix, n]) + addr
+        return [item(1, 8, 2, b"\x0a\x00"), item(1, 8, 4, b"\x0a\x00\x00\x00"), item(1, 0, 0x80, b""), item(1, 33, 1, b"\x01"),
+                item(1, 8, 5, b"\x01\x02\x03\x04\x05"), item(2, 128, 16, b"\x20\x01" + bytes(14)), item(2, 129, 0, b""),
+                item(2, 0, 17, bytes(17)), item(3, 8, 2, b"\xab\x00"), item(3, 8, 0x82, b"\xab\x00"), item(0, 255, 63, b"\x01" * 63),
+                item(0, 0, 64, b"\x01" * 64), item(1, 8, 1, b"\x0a") + item(1, 8, 1, b"\x0a"), item(1, 8, 0x7f, b"\x00" * 127)]
+    if n == "LOC":
+        base = bytes([0, 0x12, 0x16, 0x13]) + (0x80000000).to_bytes(4, "big") + (0x80000000).to_bytes(4, "big") + (10000000).to_bytes(4, "big")
+        out = [base]
+        for b in (0x00, 0x05, 0x0a, 0x90, 0x99, 0xa0, 0x1a, 0x09):
+            out.append(bytes([0, b, b, b]) + base[4:])
+        out.append(bytes([1]) + base[1:])
+        for v in (0x80000000 + 90 * 3600000, 0x80000000 + 90 * 3600000 + 1, 0x80000000 - 90 * 3600000, 0x80000000 - 90 * 3600000 - 1, 0x80000001, 0x7FFFFFFF, 0, 0xFFFFFFFF):
+            out.append(base[:4] + v.to_bytes(4, "big") + base[8:])
+        for v in (0x80000000 + 180 * 3600000, 0x80000000 + 180 * 3600000 + 1, 0x80000000 - 180 * 3600000 - 1, 0x80000000 + 90 * 3600000 + 1):
+            out.append(base[:8] + v.to_bytes(4, "big") + base[12:])
+        for v in (0, 1, 0xFFFFFFFF, 0x7FFFFFFF, 0x80000000):
+            out.append(base[:12] + v.to_bytes(4, "big"))
+        return out
+    if n == "ISDN":
+        return [b"\x01a\x00", b"\x01a\x01b", b"\x00\x00", b"\x00", b"\x01a\x02b"]
+    if n == "GPOS":
+        def g(a, b, c):
+            return bytes([len(a)]) + a + bytes([len(b)]) + b + bytes([len(c)]) + c
+        return [g(b"90.00000000000000710542735760100185871124267578125", b"0", b"0"),
+                g(b"90.000000000000007105427357601001858711242675781250000001", b"0", b"0"),
+                g(b"-90.000000000000008", b"0", b"0"), g(b"0", b"180.00000000000001421085471520200371742248535156250", b"0"),
+                g(b"0", b"-180.0000000000000142108547152020037174224853515626", b"0"), g(b"+", b"0", b"0"), g(b"1.2.3", b"0", b"0"),
+                g(b"1e1", b"0", b"0"), g(b"", b"0", b"0"), g(b"0", b"0", b"-"), g(b" 1", b"0", b"0"), g(b"0", b"0", b"1_0"), g(b"\xb2", b"0", b"0"),
+                g(b"0" * 254 + b"9", b"00180", b"." + b"0" * 254), g(b"91", b"0", b"0"), g(b"0", b"181", b"0"), g(b"-.", b"0", b"0")]
+    if n == "AMTRELAY":
+        return [b"\x0a\x00", b"\x0a\x80", b"\x0a\x81\x01\x02\x03\x04", b"\x0a\x04", b"\x0a\x7f", b"\x0a\x83\x00", b"\x0a\x03\xc0\x00", b"\x0a\x00\x00"]
+    if n == "IPSECKEY":
+        return [b"\x0a\x00\x02", b"\x0a\x04\x02", b"\x0a\x01\x02\x01\x02\x03", b"\x0a\x03\x02\x00key", b"\x0a\x03\x02\xc0\x00", b"\x0a\x02\x02" + bytes(16) + b"k"]
+    if n == "HIP":
+        return [b"\x00\x00\x00\x00", b"\x01\x02\x00\x01hk", b"\x01\x02\x00\x01hk\x00", b"\x01\x02\x00\x01hk\xc0\x00", b"\x02\x02\x00\x01hk", b"\x01\x02\x00\x02hk",
+                b"\x01\x02\x00\x01hk\x01a\x00\x01b\x00", b"\x01\x02\x00\x01hk\x01a"]
+    return []
